@@ -9,7 +9,7 @@ from checks.C10 import AXIOMS
 META = {
     "technique": "Coq proof (induction on the expression over an evaluator model whose primitives panic where Rust's do; arithmetic arms, negation/abs modes, built-in list and the fallthrough arm regenerated from evaluator.rs by a translator) + model/impl differential with panic capture (catch_unwind; child process for stack-overflow aborts)",
     "design_ref": "DESIGN.md §7 C11",
-    "level_text": "Theorem C11_no_panic (coq/theories/Expr/Props.v): for every expression, every event and every implementation of the f64 operations, eval never yields Panic (a Rust panic or the stack-overflow abort of the self-recursive fallthrough arm): the outcome is a value or no value. C11_no_panic_b64 is the binary64 instance run against the implementation; C11_builtins_covered: every arm of eval_builtin_function is modelled (same names, order, arity guards). Re-proved on every run against the tables regenerated from evaluator.rs",
+    "level_text": "Theorem C11_no_panic (coq/theories/Expr/PropsC11.v): for every expression, every event and every implementation of the f64 operations, eval never yields Panic (a Rust panic or the stack-overflow abort of the self-recursive fallthrough arm): the outcome is a value or no value. C11_no_panic_b64 is the binary64 instance run against the implementation; C11_builtins_covered: every arm of eval_builtin_function is modelled (same names, order, arity guards). Re-proved on every run against the tables regenerated from evaluator.rs",
     "level_note": "The model covers eval_expr_with_functions as called by .where / .emit (no user functions, empty bindings and SequenceContext) and all 51 built-in arms. Panic sources modelled: i64 + - * / % neg abs (raw = panics as in a build with overflow checks, which is what the harness builds; MIN / -1, MIN % -1, x / 0 panic in every build), slicing and indexed assignment out of range, the self-recursive `_ =>` arm. f64 operations and `as` casts are total in Rust and are an abstract total interface here (Flocq binary64 instance for the correspondence run; transcendental functions, powf, parse::<f64>, float/timestamp formatting not modelled -> those cases are judged by the panic oracle only). NOT covered: the statement interpreter / user-defined functions (eval_stmt, call_user_function), eval_pattern_expr, ExprAggregate arithmetic (aggregation.rs), memory exhaustion by huge ranges (excluded by the property), `sort` with a comparator that is not a total order (judged by the oracle on arrays of up to 40 mixed elements; the model's stable insertion sort is compared only on arrays where the comparator is a total preorder). Release-profile overflow semantics are not run separately: every panic of a release build is also a panic of the overflow-checked build that is run. Trusted: Coq kernel + vm_compute, 4 standard-library axioms under Flocq (instance theorem only), translator translate/expr_arms.py + digests, harness, Python driver",
 }
 
@@ -105,13 +105,13 @@ def check(run):
                     "Rust harness harness/crates/expr (dev profile: overflow checks on), Python driver checks/expr_common.py"]
     run.assumptions += ["no user-defined functions, empty SequenceContext and bindings (the .where / .emit call sites)",
                         "collection lengths fit i64 (`len as i64 + idx` cannot overflow); range sizes excluded (only literal bounds 0..8 generated)"]
-    binpath, model_ok = X.build_all(run, ["theories/Expr/Props.vo"], "C11.v", AXIOMS)
+    binpath, model_ok, fold_ok = X.build_all(run, ["theories/Expr/PropsC11.vo"], "C11.v", AXIOMS, need_fold=False)
     if binpath is None:
         return
     cases, progs = gen_cases(run)
     shown = {"c11": 0, "corr": 0}
     n_fail = 0
-    ast_out, prog_out = X.run_all(run, binpath, "C11", cases, progs)
+    ast_out, prog_out = X.run_all(run, binpath, "C11", cases, progs, fold_ok=fold_ok)
     for e, evs, a, m, v in ast_out:
         key = X.r_expr(e)
         has_val = "res" in a and any("v" in r[0] for r in a["res"])
@@ -136,7 +136,7 @@ def check(run):
                 msgs = X.judge_ast(se, sev, sa, None)["c11"]
                 run.violation("expression evaluation panics: " + "; ".join(msgs)[:500],
                               {"kind": "ast", "expr": se, "expr_text": X.to_text(se), "events": sev, "implementation": sa,
-                               "contradicts": "C11_no_panic (coq/theories/Expr/Props.v)"})
+                               "contradicts": "C11_no_panic (coq/theories/Expr/PropsC11.v)"})
         if v["corr"] and shown["corr"] < 3:
             shown["corr"] += 1
             run.tie_broken("correspondence Expr/Model.v vs evaluator.rs on %s" % X.short(X.to_text(e), 200), "; ".join(v["corr"])[:1500] + " events=" + X.short(evs, 600))
@@ -152,7 +152,7 @@ def check(run):
                 shown["c11"] += 1
                 run.violation("the engine panics / aborts evaluating a stream expression: " + "; ".join(v["c11"])[:500],
                               {"kind": "program", "vpl": text, "events": evs, "implementation": a if "abort" in a else {k: a.get(k) for k in ("run_folded", "run_unfolded")},
-                               "contradicts": "C11_no_panic (coq/theories/Expr/Props.v)"})
+                               "contradicts": "C11_no_panic (coq/theories/Expr/PropsC11.v)"})
         if v["corr"] and shown["corr"] < 5:
             shown["corr"] += 1
             run.tie_broken("correspondence Expr/Model.v vs parser+Engine on %s" % X.short(text, 200), "; ".join(v["corr"])[:1500] + " events=" + X.short(evs, 600))
